@@ -26,8 +26,8 @@ set_option linter.unusedSectionVars false
 /-- Running `parser.parse(text, start=…)` is running the LR driver on the unit table. -/
 theorem exec_parseStart (g : Grammar) (start stop : Nat) (t : String) (c : Conv α) :
     CM.exec (parseStart g start stop t : CM α (Val α)) c =
-      ((parseWith g.table g.rules start stop (mkLexConf g.lexOrder g.ignore) (transformerAct (α := α)) Val.tok c.st t).2,
-       { c with st := (parseWith g.table g.rules start stop (mkLexConf g.lexOrder g.ignore) (transformerAct (α := α)) Val.tok c.st t).1 }) := by
+      ((parseWith g.table g.rules start stop g.lexConf (transformerAct (α := α)) Val.tok c.st t).2,
+       { c with st := (parseWith g.table g.rules start stop g.lexConf (transformerAct (α := α)) Val.tok c.st t).1 }) := by
   unfold parseStart
   rw [exec_liftStE]
 
@@ -46,7 +46,7 @@ theorem parseStart_errors (g : Grammar) (start stop : Nat) (t : String) (c : Con
     (h : (CM.exec (parseStart g start stop t : CM α (Val α)) c).1 = .error e) : Allowed e := by
   rw [exec_parseStart] at h
   simp only at h
-  cases hp : parseWith g.table g.rules start stop (mkLexConf g.lexOrder g.ignore) (transformerAct (α := α)) Val.tok c.st t with
+  cases hp : parseWith g.table g.rules start stop g.lexConf (transformerAct (α := α)) Val.tok c.st t with
   | mk s' r =>
     rw [hp] at h
     simp only at h
@@ -199,10 +199,10 @@ theorem parse_idempotent_quantity (g : Grammar) (t : String) (c : Conv α) (hg :
     parse left and is still canonical): the second parse returns the first parse's result and leaves
     `s2` as it is. -/
 theorem parse_repeatable (g : Grammar) (start stop : Nat) (t : String) (s s2 : St) (hg : Good s)
-    (hf : Frame (parseWith g.table g.rules start stop (mkLexConf g.lexOrder g.ignore) (transformerAct (α := α)) Val.tok s t).1 s2)
+    (hf : Frame (parseWith g.table g.rules start stop g.lexConf (transformerAct (α := α)) Val.tok s t).1 s2)
     (hg2 : Good s2) :
-    parseWith g.table g.rules start stop (mkLexConf g.lexOrder g.ignore) (transformerAct (α := α)) Val.tok s2 t =
-      (s2, (parseWith g.table g.rules start stop (mkLexConf g.lexOrder g.ignore) (transformerAct (α := α)) Val.tok s t).2) :=
+    parseWith g.table g.rules start stop g.lexConf (transformerAct (α := α)) Val.tok s2 t =
+      (s2, (parseWith g.table g.rules start stop g.lexConf (transformerAct (α := α)) Val.tok s t).2) :=
   parseWith_stable transformer_stableActs _ _ _ _ hg s2 hf hg2
 
 end
@@ -224,8 +224,8 @@ theorem parse_magnitude_type (g : Grammar) (t : String) (c : Conv α) (hg : Good
   rw [exec_parseQuantity] at h ⊢
   rw [exec_parseStart] at h ⊢
   have hv := parseWith_vok (t := g.table) (rules := g.rules) (endS := g.endQty) (transformer_stableActs (α := α))
-    (mkLexConf g.lexOrder g.ignore) g.startQty c.st t hg
-  cases hp : parseWith g.table g.rules g.startQty g.endQty (mkLexConf g.lexOrder g.ignore) (transformerAct (α := α)) Val.tok c.st t with
+    g.lexConf g.startQty c.st t hg
+  cases hp : parseWith g.table g.rules g.startQty g.endQty g.lexConf (transformerAct (α := α)) Val.tok c.st t with
   | mk s' r =>
     simp only [hp] at h hv ⊢
     cases r with
